@@ -605,6 +605,29 @@ func edgeFacts(pc *pathCtx, fn *ssa.Function, b *ssa.BasicBlock) []relFact {
 	return out
 }
 
+// edgeFactsInto: the facts that hold when control enters block to from its predecessor
+// from: everything that guards from, plus the outcome of from's own branch.
+func edgeFactsInto(pc *pathCtx, fn *ssa.Function, from, to *ssa.BasicBlock) []relFact {
+	out := edgeFacts(pc, fn, from)
+	iff := path.BlockIf(from)
+	if iff == nil || len(from.Succs) != 2 || from.Succs[0] == from.Succs[1] {
+		return out
+	}
+	cd, ok := path.CondOf(iff)
+	if !ok {
+		return out
+	}
+	truth := from.Succs[0] == to
+	if cd.Neg {
+		truth = !truth
+	}
+	x, y := pc.path(cd.X), pc.path(cd.Y)
+	if x != "" && y != "" {
+		out = append(out, relFact{x, normCmp(cd.Op, truth), y})
+	}
+	return out
+}
+
 func hasFact(fs []relFact, x, rel, y string) bool {
 	for _, f := range fs {
 		if f.X == x && f.Rel == rel && f.Y == y {
